@@ -389,5 +389,51 @@ func corpus() []Session {
 				cmd(`{"verb":"list","what":"destination","which":"all"}`, "list/destination/which-all"),
 			}})
 	}
+	// reserved words in other spellings: none of them may remove apiRule, whatever else they do
+	for _, mode := range []string{"topic", "direct"} {
+		var items []Item
+		items = append(items, cmd(`{"verb":"add","what":"destination","rule":{"id":"x1","stream":"video0","destination":"ws://127.0.0.1:9/in/video0"}}`, "add/destination"))
+		for _, w := range []string{" apiRule", "apiRule ", "apiRule\n", "\tapiRule", "APIRULE", "apirule", "ApiRule", "apiRule\u0000", " all", "all ", "ALL", "All", " deleteAll", "deleteAll ", "DELETEALL", "deleteall", "deleteAll\n"} {
+			items = append(items, cmd(`{"verb":"delete","what":"destination","which":"`+w+`"}`, "delete/destination/which-reserved-lookalike"))
+			items = append(items, cmd(`{"verb":"add","what":"destination","rule":{"id":"`+w+`","stream":"api","destination":"ws://127.0.0.1:9/elsewhere"}}`, "add/destination/rule-id-reserved-lookalike"))
+		}
+		items = append(items, cmd(`{"verb":"list","what":"destination","which":"all"}`, "list/destination/which-all"))
+		out = append(out, Session{API: api, Mode: mode, Items: items})
+	}
+	// the HTTP rule API: every route that takes a body, each body once with Content-Length and once chunked
+	var hitems []Item
+	bodies := []struct{ b, f string }{
+		{`{"id":"h1","stream":"/video0","destination":"ws://127.0.0.1:9/in/video0"}`, "dest-rule"},
+		{`{"stream":"/stream/large","feeds":["video0","audio0"]}`, "stream-rule"},
+		{``, "empty-body"}, {`not json`, "text-body"}, {`null`, "null-body"}, {`[]`, "array-body"},
+		{`{"stream":"s","destination":"` + strings.Repeat("x", 70000) + `"}`, "huge-body"},
+	}
+	for _, path := range []string{"/api/destinations", "/api/streams"} {
+		for _, m := range []string{"POST", "PUT", "UPDATE"} {
+			for _, b := range bodies {
+				for _, ch := range []bool{false, true} {
+					for _, ct := range []string{"application/json", ""} {
+						if (ct == "") != (m == "PUT") { // PUT carries the no-content-type variants
+							continue
+						}
+						fam := "http/" + m + " " + path + "/" + b.f
+						if ch {
+							fam += "/chunked"
+						}
+						hitems = append(hitems, Item{Kind: "http", Method: m, Path: path, Body: []byte(b.b), Chunked: ch, CType: ct, Family: fam})
+					}
+				}
+			}
+		}
+	}
+	for _, p := range []string{"/api/destinations/all", "/api/destinations/h1", "/api/streams/all", "/api/streams/stream/large", "/api/streams/nosuch"} {
+		hitems = append(hitems, Item{Kind: "http", Method: "GET", Path: p, Family: "http/GET " + p})
+	}
+	for _, p := range []string{"/api/destinations/h1", "/api/destinations/all", "/api/streams/stream/large", "/api/streams/all"} {
+		for _, ch := range []bool{false, true} {
+			hitems = append(hitems, Item{Kind: "http", Method: "DELETE", Path: p, Chunked: ch, Body: []byte(`{"ignored":true}`), Family: "http/DELETE " + p})
+		}
+	}
+	out = append(out, Session{API: api, Mode: "topic", Items: hitems})
 	return out
 }
